@@ -11,3 +11,13 @@ package schedule
 //@ func (w *Weekly) Contains(t time.Time) (ok bool)
 //@   property C18
 //@   ensures wallclock: ok == (w.days[wdOf(t, w.location)].start <= clockOf(t, w.location) && clockOf(t, w.location) < w.days[wdOf(t, w.location)].end)
+
+//@ define validRange(r dayRange) bool = r == dayRange{} || (0 <= r.start && r.start < r.end && r.end <= 86400000000000)
+
+//@ func (r dayRange) validate() (err error)
+//@   property C18
+//@   ensures accept-iff-valid: err == nil <==> validRange(r)
+
+//@ func (w *Weekly) validate(r dayRange) (err error)
+//@   property C18
+//@   ensures accept-iff-valid-minutes: err == nil <==> (validRange(r) && r.start % 60000000000 == 0 && r.end % 60000000000 == 0)
